@@ -57,6 +57,7 @@ type c02Obs struct {
 	Flushes   []c02Flush `json:"flushes"`
 	Singles   int        `json:"singles"` // responses written outside any array
 	Premature bool       `json:"premature"`
+	Handled   []int      `json:"handled"` // batch: member positions (1-based) in the order their handlers started (notifications, gated calls)
 	Panic     string     `json:"panic"`
 	// streamable HTTP
 	Status    int  `json:"status"`    // HTTP status of the POST carrying the case
@@ -150,6 +151,8 @@ func c02Params(method, pc string) string {
 }
 
 type c02Env struct {
+	handled []int          // member positions in the order their handlers started
+	posOf   map[string]int // gate tag -> member position
 	peer    *c02Peer
 	srv     *mcp.Server
 	gates   map[string]chan struct{}
@@ -171,7 +174,13 @@ func (e *c02Env) gate(tag string) chan struct{} {
 
 func c02Setup(t *testing.T, era string) *c02Env {
 	e := &c02Env{gates: map[string]chan struct{}{}}
-	e.srv = mcp.NewServer(&mcp.Implementation{Name: "s", Version: "1"}, nil)
+	e.srv = mcp.NewServer(&mcp.Implementation{Name: "s", Version: "1"}, &mcp.ServerOptions{
+		ProgressNotificationHandler: func(ctx context.Context, req *mcp.ProgressNotificationServerRequest) {
+			e.gmu.Lock()
+			e.handled = append(e.handled, int(req.Params.Progress))
+			e.gmu.Unlock()
+		},
+	})
 	e.srv.AddTool(&mcp.Tool{Name: "echo", InputSchema: json.RawMessage(`{"type":"object"}`)},
 		func(ctx context.Context, req *mcp.CallToolRequest) (*mcp.CallToolResult, error) {
 			return &mcp.CallToolResult{Content: []mcp.Content{&mcp.TextContent{Text: "ok"}}}, nil
@@ -184,6 +193,9 @@ func c02Setup(t *testing.T, era string) *c02Env {
 			json.Unmarshal(req.Params.Arguments, &a)
 			e.gmu.Lock()
 			e.started = append(e.started, a.Tag)
+			if pos, ok := e.posOf[a.Tag]; ok {
+				e.handled = append(e.handled, pos)
+			}
 			e.gmu.Unlock()
 			select {
 			case <-e.gate(a.Tag):
@@ -300,12 +312,18 @@ func c02Batch(t *testing.T, r *rand.Rand, c c02Case) (o c02Obs) {
 		var parts []string
 		callIdx := 0
 		callIDs := map[int]string{} // call member number (1-based among calls) -> id token
+		e.gmu.Lock()
+		e.posOf = map[string]int{}
+		e.gmu.Unlock()
 		for i, m := range c.Members {
 			switch m {
 			case "call":
 				callIdx++
 				id := strconv.Itoa(100 + i)
 				callIDs[callIdx] = id
+				e.gmu.Lock()
+				e.posOf[fmt.Sprintf("g%d", callIdx)] = i + 1
+				e.gmu.Unlock()
 				parts = append(parts, fmt.Sprintf(`{"jsonrpc":"2.0","id":%s,"method":"tools/call","params":{"name":"gate","arguments":{"tag":"g%d"}}}`, id, callIdx))
 			case "unk":
 				callIdx++
@@ -313,7 +331,7 @@ func c02Batch(t *testing.T, r *rand.Rand, c c02Case) (o c02Obs) {
 				callIDs[callIdx] = id
 				parts = append(parts, fmt.Sprintf(`{"jsonrpc":"2.0","id":%s,"method":"no/such"}`, id))
 			case "notif":
-				parts = append(parts, `{"jsonrpc":"2.0","method":"notifications/progress","params":{"progressToken":"t","progress":1}}`)
+				parts = append(parts, fmt.Sprintf(`{"jsonrpc":"2.0","method":"notifications/progress","params":{"progressToken":"t","progress":%d}}`, i+1))
 			}
 		}
 		o.Sent = "[" + strings.Join(parts, ",") + "]"
@@ -377,6 +395,31 @@ func c02Batch(t *testing.T, r *rand.Rand, c c02Case) (o c02Obs) {
 		synctest.Wait()
 		collect()
 		o.Count = ncalls
+		e.gmu.Lock()
+		o.Handled = append([]int{}, e.handled...)
+		e.gmu.Unlock()
+		// once the batch is complete its ids are free again: a second batch re-using the id that was answered LAST
+		// (and a single call re-using the first one) must be answered like any other
+		o.ReuseOK = true
+		if len(o.Flushes) == 1 && len(o.Flushes[0].IDs) > 0 && !o.Premature {
+			ids := o.Flushes[0].IDs
+			last := ids[len(ids)-1]
+			if len(c.Order) > 0 && c.Order[len(c.Order)-1]-1 < len(gated) {
+				last = callIDs[gated[c.Order[len(c.Order)-1]-1]]
+			}
+			e.peer.take()
+			e.peer.send(fmt.Sprintf(`[{"jsonrpc":"2.0","id":%s,"method":"no/such"}]`, last))
+			synctest.Wait()
+			if got := strings.Join(e.peer.take(), "\n"); !strings.Contains(got, `"id":`+last) {
+				o.ReuseOK = false
+			}
+			first := ids[0]
+			e.peer.send(fmt.Sprintf(`{"jsonrpc":"2.0","id":%s,"method":"no/such"}`, first))
+			synctest.Wait()
+			if got := strings.Join(e.peer.take(), "\n"); !strings.Contains(got, `"id":`+first) {
+				o.ReuseOK = false
+			}
+		}
 		o.Alive = e.alive()
 	})
 	return o
@@ -571,6 +614,9 @@ func TestVerif_C02Wire(t *testing.T) {
 		}
 		if o.Flushes == nil {
 			o.Flushes = []c02Flush{}
+		}
+		if o.Handled == nil {
+			o.Handled = []int{}
 		}
 		if o.Case.Members == nil {
 			o.Case.Members = []string{}
